@@ -13,7 +13,7 @@ without it having been reclaimed yet — returns false and leaves the whole cach
 theorem iip_absent_noop (c : Cache) (su : Nat → Nat → Bool) (k cf v : Nat) (cost : Int)
     (ttl now : Nat) (coster : Int) (habs : c.store.get k cf now = none) :
     c.insert su k cf v cost ttl now coster true = (c, false) := by
-  unfold Cache.insert
+  unfold Cache.insert Cache.insertBody
   split
   · rfl
   · simp [habs]
@@ -25,7 +25,7 @@ theorem client_insert_never_creates (c : Cache) (su : Nat → Nat → Bool) (k c
     (ttl now : Nat) (coster : Int) (only : Bool) (j : Nat)
     (h : ((c.insert su k cf v cost ttl now coster only).1.store.items.get j).isSome = true) :
     (c.store.items.get j).isSome = true := by
-  unfold Cache.insert Store.tryUpdate at h
+  unfold Cache.insert Cache.insertBody Store.tryUpdate at h
   by_cases hc : c.closed = true
   · simpa [hc] using h
   · simp only [hc, Bool.false_eq_true, if_false] at h
@@ -74,7 +74,7 @@ theorem iip_resident_is_update (c : Cache) (su : Nat → Nat → Bool) (k cf v :
       ({ items := c.store.items.set k { e with val := v, exp := { d := 0, created := now } },
          em := c.store.em.tryUpdate k cf e.exp { d := 0, created := now } }, .update e.val) := by
     simp [Store.tryUpdate, he, hcf, hsu]
-  unfold Cache.insert
+  unfold Cache.insert Cache.insertBody
   simp only [hopen, hget, hu, Bool.false_eq_true, if_false, Bool.and_false]
   split <;> simp
 
@@ -84,7 +84,7 @@ theorem veto_preserves (c : Cache) (su : Nat → Nat → Bool) (k cf v : Nat) (c
     (ttl now : Nat) (coster : Int) (only : Bool) (e : Entry)
     (he : c.store.items.get k = some e) (hveto : su e.val v = false) :
     (c.insert su k cf v cost ttl now coster only).1.store = c.store := by
-  unfold Cache.insert Store.tryUpdate
+  unfold Cache.insert Cache.insertBody Store.tryUpdate
   simp only [he]
   by_cases hc : c.closed = true
   · simp [hc]
